@@ -171,7 +171,7 @@ class RsaEnc(W):
             return b"\x00\x02" + ps + b"\x00" + m
         return bytes(k - 1 - len(m)) + b"\xff" + m
 
-    def keygen(self, bits):
+    def keygen(self, bits, case_key=None):
         ctx, R = self.ctx, self.R
 
         def f():
@@ -186,7 +186,65 @@ class RsaEnc(W):
             if not ctx.check(good, ctx.cur_key + "|key-inconsistent", {"n": hx(n)}):
                 return None
             return dict(pub=pub, prv=prv, n=n, e=e, d=d, k=(n.bit_length() + 7) // 8, bits=bits, nbits=n.bit_length())
-        return self.case("cp_rsa_gen|bits=%d" % bits, [bits], f, budget=300)
+        return self.case(case_key or "cp_rsa_gen|bits=%d" % bits, [bits], f, budget=300)
+
+    def sweep(self):
+        """honest round trips for every modulus length near the smallest the padding admits, around the lengths where a
+        single octet of the OAEP data block sits in the top 64-bit digit (k = 2 mod 8), and a few ordinary sizes"""
+        ctx, R, rng = self.ctx, self.R, self.rng
+        q = ctx.quick
+        pad = self.pad
+        top = R.K["RLC_BN_BITS"]           # larger moduli exceed the configured precision: not judged
+        kmin = {"oaep": 2 * cprt.HL + 3, "pkcs1": 12, "basic": 3}[pad]      # one octet of plaintext
+        lo = max(8 * (kmin - 1) + 1, 256)
+        sizes = set(range(lo, lo + 12)) | set(range(766, 771)) | set(range(top - 8, top + 1))
+        sizes |= set(range(521, 531)) | set(range(583, 597))
+        if not q:
+            sizes |= set(range(645, 661)) | set(range(lo + 12, lo + 25)) | set(range(895, 905))
+        sizes = sorted(x for x in sizes if x <= top)
+        per = 2 if q else 4
+        have = {}
+        ctx.note("sweep_modulus_lengths", [sizes[0], sizes[-1], len(sizes)])
+        for idx, nbw in enumerate(sizes):
+            if not ctx.mine(idx):
+                continue
+            tries = 0
+            while have.get(nbw, 0) < per and tries < 24:
+                tries += 1
+                # cp_rsa_gen(b) gives a modulus of b or b - 1 bits for even b
+                key = self.keygen(nbw + 1 if nbw % 2 else nbw + 2 * (tries % 2), "cp_rsa_gen|sweep")
+                if key is None or key["nbits"] != nbw:
+                    continue
+                have[nbw] = have.get(nbw, 0) + 1
+                k = key["k"]
+                mx = self.maxlen(k)
+                if mx < 1:
+                    def small():
+                        good, ct, res = self.enc(b"\x01", key)
+                        ctx.check(not good, ctx.cur_key + "|accepted", {"ct": ct.hex(), "n": hx(key["n"])})
+                    self.case("cp_rsa_enc|nbits=%d,len>max" % nbw, [nbw], small)
+                    continue
+                sensitive = pad == "oaep" and (k - cprt.HL - 1) % 8 == 1
+                # 1/256 of the ciphertexts have a zero leading octet of maskedDB: > 0.99 detection per length needs ~1200
+                rounds = (600 if q else 1500) if sensitive else (24 if q else 80)
+                for it in range(rounds):
+                    L = (1, max(1, mx // 2), mx)[it % 3]
+                    pt = self.rbytes(L)
+
+                    def f():
+                        good, ct, res = self.enc(pt, key)
+                        if not ctx.check(good and len(ct) == k, ctx.cur_key + "|unexpected-error", {"len": L, "n": hx(key["n"])}):
+                            return
+                        md = self.model_dec(ct, key) if (it % 8 == 0 or not sensitive) else pt
+                        ctx.check(md == pt, ctx.cur_key + "|model-decodes-differently", {"pt": pt.hex(), "ct": ct.hex()})
+                        g2, back, r2 = self.dec(ct, key)
+                        if not ctx.check(g2 and back == pt, "cp_rsa_dec|honest,nbits=%d|round-trip" % nbw,
+                                         {"n": hx(key["n"]), "d": hx(key["d"]), "pt": pt.hex(), "ct": ct.hex(), "ok": g2, "got": back.hex()}):
+                            # tell a wrong decryption apart from a wrong encryption
+                            md2 = self.model_dec(ct, key)
+                            ctx.note("sweep_last_failure_model_decodes", md2 == pt)
+                    self.case("cp_rsa_enc|honest,nbits=%d" % nbw, [nbw, L, have[nbw], it], f)
+        ctx.note("sweep_keys_per_length", have)
 
     def dec(self, ct, key, cap=None, inplace=False):
         return self.call_io("cp_rsa_dec", ct, [key["prv"]], cap if cap is not None else key["k"] + 16, inplace=inplace)
@@ -357,6 +415,7 @@ def run_rsa(ctx):
     R = PX(ctx.cfg)
     w = RsaEnc(ctx, R)
     ctx.note("padding", w.pad)
+    w.sweep()
     sizes = [1024, 1018, 768, 600, 1017, 520] if ctx.quick else [1024, 1018, 1017, 1016, 1010, 1002, 768, 600, 536, 528, 520, 512]
     for i, bits in enumerate(sizes):
         key = w.keygen(bits)
